@@ -1,7 +1,9 @@
 package props
 
 import (
+	"encoding/json"
 	"fmt"
+	"os"
 	"testing"
 
 	"pgregory.net/rapid"
@@ -21,8 +23,55 @@ type stepCase struct {
 	Steps int
 }
 
+// one case in 2^hugeBits uses a core above 2^16 cells
+var hugeBits = 8
+
+// stepCaseJSON is the replay-file form: only the non-default cells are written.
+type stepCaseJSON struct {
+	Cfg   simCfg
+	PC    int
+	Steps int
+	Cells map[string]ref.Instr
+}
+
+func (c stepCase) MarshalJSON() ([]byte, error) {
+	j := stepCaseJSON{Cfg: c.Cfg, PC: c.PC, Steps: c.Steps, Cells: map[string]ref.Instr{}}
+	for a, i := range c.Core {
+		if i != (ref.Instr{}) {
+			j.Cells[fmt.Sprint(a)] = i
+		}
+	}
+	return json.Marshal(j)
+}
+
+func (c *stepCase) UnmarshalJSON(b []byte) error {
+	var j stepCaseJSON
+	if err := json.Unmarshal(b, &j); err != nil {
+		return err
+	}
+	c.Cfg, c.PC, c.Steps = j.Cfg, j.PC, j.Steps
+	if j.Cfg.M < 0 || j.Cfg.M > 1<<24 {
+		return fmt.Errorf("bad core size")
+	}
+	c.Core = make([]ref.Instr, j.Cfg.M)
+	for k, v := range j.Cells {
+		var a int
+		if _, err := fmt.Sscan(k, &a); err != nil || a < 0 || a >= len(c.Core) {
+			return fmt.Errorf("bad cell address %q", k)
+		}
+		c.Core[a] = v
+	}
+	return nil
+}
+
 func genStepCase(t *rapid.T, forced []int, limited int) stepCase {
 	m := gen.CoreSize(65536).Draw(t, "M")
+	// cores above 2^16 cells (where 16- and 32-bit shortcuts break) cost 10..100 ms
+	// per case, so they are a rare class of their own with a focus on wide values
+	huge := gen.Rare(t, "huge", hugeBits) || os.Getenv("VERIF_DEBUG_HUGE") != ""
+	if huge {
+		m = rapid.SampledFrom([]int{65537, 100000, 100000, 131072, 131072, 200003}).Draw(t, "Mhuge")
+	}
 	var c stepCase
 	c.Cfg.M = m
 	switch limited {
@@ -45,6 +94,11 @@ func genStepCase(t *rapid.T, forced []int, limited int) stepCase {
 	c.Cfg.P = rapid.SampledFrom([]int{1, 2, 3, 8}).Draw(t, "P")
 	c.Cfg.Mode = rapid.IntRange(0, 2).Draw(t, "mode")
 	c.Steps = rapid.IntRange(1, 6).Draw(t, "steps")
+	if m > 65536 {
+		c.Steps = 1
+	} else if m > 8192 && c.Steps > 2 {
+		c.Steps = 2
+	}
 	c.Cfg.Cycles = c.Steps
 	c.PC = rapid.IntRange(0, m-1).Draw(t, "pc")
 	c.Core = make([]ref.Instr, m)
@@ -68,8 +122,43 @@ func genStepCase(t *rapid.T, forced []int, limited int) stepCase {
 		}
 		c.Core[c.PC] = gen.Instr(m).Draw(t, "pccell")
 	}
+	if huge && limited != 2 {
+		// limits of the same order as the core, where pointer*limit exceeds 32 bits
+		for _, lim := range []*int{&c.Cfg.R, &c.Cfg.W} {
+			if rapid.Bool().Draw(t, "hugelim") {
+				v := rapid.SampledFrom([]int{m / 2, 50000, 65536, m/2 + 1, m - 1, 46341, 65535}).Draw(t, "hugelimv")
+				if v >= 1 && v <= m {
+					*lim = v
+				}
+			}
+		}
+	}
+	if huge {
+		// an arithmetic, jump or copy instruction whose operands and operand cells hold wide values
+		wide := func(label string) int {
+			switch rapid.IntRange(0, 3).Draw(t, label+"k") {
+			case 0:
+				return rapid.IntRange(0, m-1).Draw(t, label)
+			case 1:
+				return m - 1 - rapid.IntRange(0, 70000).Draw(t, label)%m
+			default:
+				return gen.Field(m).Draw(t, label)
+			}
+		}
+		cell := &c.Core[c.PC]
+		cell.Op = rapid.SampledFrom([]int{ref.MUL, ref.MUL, ref.ADD, ref.SUB, ref.DIV, ref.MOD, ref.MOV, ref.DJN, ref.JMP, ref.SPL, ref.SLT}).Draw(t, "hop")
+		cell.Mod = rapid.IntRange(0, ref.NumMods-1).Draw(t, "hmod")
+		cell.AM = rapid.SampledFrom([]int{ref.Direct, ref.Direct, ref.Immediate, ref.BInd, ref.AInd, ref.BDec, ref.AInc}).Draw(t, "ham")
+		cell.BM = rapid.SampledFrom([]int{ref.Direct, ref.Direct, ref.Immediate, ref.BInd, ref.AInd, ref.BInc, ref.ADec}).Draw(t, "hbm")
+		cell.A, cell.B = wide("ha"), wide("hb")
+		for _, a := range []int{(c.PC + cell.A) % m, (c.PC + cell.B) % m} {
+			if a != c.PC {
+				c.Core[a].A, c.Core[a].B = wide("hca"), wide("hcb")
+			}
+		}
+	}
 	// operand values at the folding boundaries of this case's limits
-	if rapid.IntRange(0, 3).Draw(t, "bndfields") == 0 {
+	if rapid.IntRange(0, 3).Draw(t, "bndfields") == 0 || (huge && rapid.Bool().Draw(t, "hugebnd")) {
 		r, w := c.Cfg.R, c.Cfg.W
 		cands := []int{r / 2, r/2 + 1, r - 1, r, r + 1, w / 2, w/2 + 1, w - 1, w, w + 1, m - r/2, m - r/2 - 1, m - w/2, m - w/2 - 1, r + r/2, r + r/2 + 1, w + w/2 + 1}
 		norm := func(v int) int { return ((v % m) + m) % m }
@@ -112,8 +201,10 @@ func judgeStepCase(c stepCase, rec *hx.Rec, formSeen []int32) string {
 	}
 	core := append([]ref.Instr(nil), c.Core...)
 	q := []int{c.PC}
-	if d := diffCore(sim, core); d != "" {
-		return "after load: " + d
+	if m <= 65536 {
+		if d := diffCore(sim, core); d != "" {
+			return "after load: " + d
+		}
 	}
 	if d := diffQueue(w, q); d != "" {
 		return "after load: " + d
